@@ -57,7 +57,7 @@ class _HMixin:
             raise RuntimeError("injected fault in functor")
         if dur:
             self.sh.nap(dur)
-        return (call, idx, "r" * x[3]) if len(x) > 3 else (call, idx)
+        return (call, idx, "r" * x[3]) if len(x) > 3 and x[3] else (call, idx)
 
     def end(self):
         self.sh.log("end_enter", wid=self.wid)
